@@ -187,6 +187,11 @@ class Attribute:
             if not isinstance(value, (list, tuple)):
                 value = [value]
             return [self.converter(v) for v in value]
+
+        if isinstance(value, (list, tuple)):
+            # the count of a single-valued attribute is always 1; writing several values would corrupt the record
+            raise TypeError(f"{self} is not multivalued; got multiple values: {value}")
+
         return self.converter(value)
 
     @property
